@@ -392,7 +392,7 @@ def py_wrappers():
     import c20_py
     try:
         ws = c20_py.analyse(SRC, CYORDER)
-        ld = c20_py.line_dist(SRC) + c20_py.range_terms(SRC)
+        ld = c20_py.line_dist(SRC) + c20_py.range_terms(SRC) + c20_py.nsi_betw_terms(SRC)
     except c20_py.Untranslatable as e:
         raise Untranslatable(str(e))
     out = ["/- GENERATED by translate/gen_C20.py (c20_py.py) from the current /repo working tree — do not edit. -/",
